@@ -418,7 +418,13 @@ pub fn emit_stress(out: &mut Out, p: &StressPlan) {
     drop(join);
     let join_time = j0.elapsed();
     let events = log.lock().unwrap().clone();
-    let fl = flushes.lock().unwrap().clone();
+    let mut fl = flushes.lock().unwrap().clone();
+    out.add("stress_flush_requests_made", fl.len() as u64);
+    if fl.len() > 400 {
+        // the predicate is linear in the log per request: check an evenly spaced sample of the requests
+        let step = fl.len() as f64 / 400.0;
+        fl = (0..400).map(|i| fl[(i as f64 * step) as usize]).collect();
+    }
     let imp = Sx::L(vec![
         Sx::L(events.iter().map(|e| e.sx()).collect()),
         Sx::L(fl.iter().map(|f| Sx::L(vec![sx::n(f.0), sx::n(f.1), if f.2 == u64::MAX { sx::z(-1) } else { sx::n(f.2) }])).collect()),
